@@ -22,7 +22,7 @@ UNIVERSE = ['Al', 'Cu', 'Fe', 'Ni']          # enumerated exhaustively
 BIG = ['Al', 'Cu', 'Fe', 'Ni', 'Ag', 'Au']   # structured 5- and 6-element models
 CUSTOM = ['Xx', 'A', 'B', 'Zq']
 # labels that are anagrams of each other when two are joined (Fe2+Cr3 / Fe3+Cr2), labels of 8 characters (the widest the fixed-width formats hold)
-CUSTOM2 = ['Fe2', 'Fe3', 'Cr2', 'Cr3', 'Ce_core4', 'O_shell2', 'Fe10', 'Si9', 'Si10']      # (... and labels whose numbers differ in digit count)
+CUSTOM2 = ['Fe2', 'Fe3', 'Cr2', 'Cr3', 'Ce_core4', 'O_shell2', 'Fe10', 'Si9', 'Si10', 'Li', 'Li+']      # (... and labels whose numbers differ in digit count)
 FOREIGN = ['Mg', 'O']                       # species of pair potentials that have no EAM functions (hybrid pair/EAM models)
 BUILTIN = {'Al': (13, 26.981538), 'Cu': (29, 63.546), 'Fe': (26, 55.845), 'Ni': (28, 58.6934), 'Ag': (47, 107.8682), 'Au': (79, 196.96655)}
 # (values with more digits than %f prints and values in scientific notation: the element line must not lose them)
@@ -39,6 +39,7 @@ CUSTOM_DATA = {'Xx': {'atomic_number': 119, 'atomic_mass': 300.5}, 'A': {'atomic
                'Ce_core4': {'atomic_number': 58, 'atomic_mass': 140.116, 'lattice_constant': 5.41, 'lattice_type': 'diamond'},
                'O_shell2': {'atomic_number': 8, 'atomic_mass': 15.999},
                'Fe10': {'atomic_number': 26, 'atomic_mass': 55.845, 'lattice_constant': 2.87, 'lattice_type': 'bcc'},
+               'Li': {'atomic_number': 3, 'atomic_mass': 6.94}, 'Li+': {'atomic_number': 3, 'atomic_mass': 6.9395, 'lattice_type': 'bcc'},
                'Si9': {'atomic_number': 14, 'atomic_mass': 28.0855}, 'Si10': {'atomic_number': 14, 'atomic_mass': 28.1, 'lattice_type': 'diamond'}}
 
 
@@ -256,7 +257,7 @@ def label_models(fs, tier):
                 continue
             out.append(mk(list(els), 'custom'))
     for n in (2, 3):
-        for trio in (['Fe2', 'Fe10', 'O_shell2'], ['Si9', 'Si10', 'Fe2']):
+        for trio in (['Fe2', 'Fe10', 'O_shell2'], ['Si9', 'Si10', 'Fe2'], ['Li', 'Li+', 'O_shell2']):    # (... and a label that is another one plus a character sorting below '-')
             for els in itertools.permutations(trio, n):
                 k += 1
                 m_ = mk(list(els), 'custom')
